@@ -79,3 +79,23 @@ Proof.
   split; [eexists; split; [reflexivity|]; intros a H; unfold level_of; now rewrite H|].
   reflexivity.
 Qed.
+
+(** ** Which parameters are recorded as `Value` *)
+
+(** only the last segment counts: prefix, leading `::`, generic arguments and references are irrelevant *)
+Lemma rtype_last_segment table refs lead pre last gens k :
+  pat_rule k = PRKeep ->
+  rtype_of table (TyPath refs lead (pre ++ (last :: nil)) gens) k = (if in_table table last then RValue else RDebug).
+Proof. intros H. unfold rtype_of, ty_rtype. rewrite H, rev_app_distr. reflexivity. Qed.
+
+Lemma rtype_spelling_irrelevant table refs lead pre last gens refs' lead' pre' gens' k :
+  rtype_of table (TyPath refs lead (pre ++ (last :: nil)) gens) k
+  = rtype_of table (TyPath refs' lead' (pre' ++ (last :: nil)) gens') k.
+Proof. unfold rtype_of, ty_rtype. rewrite !rev_app_distr. reflexivity. Qed.
+
+Theorem source_record_type :
+  Gen_attr.gen_path_last_segment = true
+  /\ Gen_attr.gen_ref_recurses = true
+  /\ Gen_attr.gen_other_types_debug = true
+  /\ (forall k, Gen_attr.gen_pat_rule k = Some (pat_rule k)).
+Proof. repeat split; try reflexivity. intros k; destruct k; reflexivity. Qed.
